@@ -122,7 +122,9 @@ def floatCeilLog2 (total : Nat) : Nat :=
 /-- `self.max_depth` of MerkleTree.__init__.  Which of the two forms the source uses is
     re-extracted on every run (`Gen.treeDepthIsFloatLog`). -/
 def maxDepth (total : Nat) : Nat :=
-  if Gen.treeDepthIsFloatLog then floatCeilLog2 total else bitLength (total - 1)
+  if Gen.treeDepthIsFloatLog then floatCeilLog2 total
+  else if total = 0 then 1      -- (-1).bit_length() = 1; the tree then has two empty levels
+  else bitLength (total - 1)
 
 /-- `math.ceil(self.total / 2 ** (self.max_depth - depth))`: number of items of a level
     (true division is exact for total < 2^53) -/
